@@ -249,3 +249,83 @@ pub fn nodict_predictor_params(strategy: PreflateStrategy) -> TokenPredictorPara
         hash_algorithm: HashAlgorithm::None,
     }
 }
+
+// ---------------------------------------------------------------------------
+// Input seams
+// ---------------------------------------------------------------------------
+use std::io::{Read, Write};
+
+/// Budgeted symbolic byte source: hands out `len` symbolic bytes one at a time and
+/// `assume(false)`s beyond — i.e. "all streams whose parse finishes within `len` bytes".
+pub struct Src<const N: usize> {
+    pub data: [u8; N],
+    pub pos: usize,
+    pub len: usize,
+}
+impl<const N: usize> Src<N> {
+    pub fn any() -> Self {
+        Src { data: kani::any(), pos: 0, len: N }
+    }
+}
+impl<const N: usize> Read for Src<N> {
+    fn read(&mut self, buf: &mut [u8]) -> std::io::Result<usize> {
+        if buf.is_empty() {
+            return Ok(0);
+        }
+        kani::assume(self.pos < self.len);
+        buf[0] = self.data[self.pos];
+        self.pos += 1;
+        Ok(1)
+    }
+}
+
+/// Same, but reports end of file (Ok(0)) after `len` bytes: truncated inputs.
+pub struct SrcEof<const N: usize> {
+    pub data: [u8; N],
+    pub pos: usize,
+    pub len: usize,
+}
+impl<const N: usize> Read for SrcEof<N> {
+    fn read(&mut self, buf: &mut [u8]) -> std::io::Result<usize> {
+        if buf.is_empty() || self.pos >= self.len {
+            return Ok(0);
+        }
+        buf[0] = self.data[self.pos];
+        self.pos += 1;
+        Ok(1)
+    }
+}
+
+/// Recording symbolic bit source for `ReadBits` consumers: every `get(n)` returns fresh
+/// symbolic bits and records (value, n) so that the writer's output can be compared
+/// bit for bit.  `budget` bounds the number of calls (assume(false) beyond).
+pub const BITS_N: usize = 96;
+pub struct Bits {
+    pub val: [u32; BITS_N],
+    pub cnt: [u8; BITS_N],
+    pub n: usize,
+    pub budget: usize,
+}
+impl Bits {
+    pub fn new(budget: usize) -> Self {
+        assert!(budget <= BITS_N);
+        Bits { val: [0; BITS_N], cnt: [0; BITS_N], n: 0, budget }
+    }
+}
+impl crate::bit_reader::ReadBits for Bits {
+    fn get(&mut self, cbit: u32) -> std::io::Result<u32> {
+        kani::assume(self.n < self.budget);
+        assert!(cbit <= 32);
+        let v: u32 = kani::any();
+        let v = if cbit == 32 { v } else { v & ((1u32 << cbit) - 1) };
+        self.val[self.n] = v;
+        self.cnt[self.n] = cbit as u8;
+        self.n += 1;
+        Ok(v)
+    }
+}
+
+/// bit-serial view of a byte slice (LSB first), used by reference decoders and comparisons
+pub fn bit_at(data: &[u8], bitpos: usize) -> u32 {
+    ((data[bitpos >> 3] >> (bitpos & 7)) & 1) as u32
+}
